@@ -602,7 +602,18 @@ def expr(fn, op, depth=0, memo=None, impure=None):
             else:
                 base = (("call", t["callee"], tuple(expr(fn, a, depth + 1, memo, impure) for a in t["args"])), ())
         memo[l] = base
-    return (base[0], _norm_path(base[1] + tuple(proj)))
+    return _reduce_proj(base[0], _norm_path(base[1] + tuple(proj)))
+
+
+def _reduce_proj(root, path):
+    """component selection on a tuple aggregate: (a, b).1 == b"""
+    while root[0] == "agg" and root[1] in ("", "<tuple>") and path and isinstance(path[0], str) and path[0][:1] == "." and path[0][1:].isdigit():
+        i = int(path[0][1:])
+        if i >= len(root[2]):
+            break
+        sub = root[2][i]
+        root, path = sub[0], _norm_path(sub[1] + tuple(path[1:]))
+    return (root, path)
 
 
 def expr_has_input(e):
